@@ -72,7 +72,7 @@ fn mutate(rng: &mut Rng, s: &str) -> String {
             3 => { let j = rng.below(c.len() as u64 + 1) as usize; c.truncate(j); }
             4 if c.len() > 2 => { let j = i.min(c.len() - 2); c.swap(j, j + 1); }
             5 => { let j = i.min(c.len()); let piece: Vec<char> = rng.pick(&["{4294967296}", "{0}", "{1000}", "{,0}", "{3,1}", "{99999999999999999999}", "PEEK[2147483648..]", "PEEK[-2147483649..1]", "PEEK[..99999999999]", "\"\\u{D800}\"", "'\\u{110000}'..'a'", "\"\\u{0}\"", "\"\\x80\"", "\"\\xFF\"", "\"\\u{10FFFF}\"", "PUSH_LITERAL(\"\\u{DFFF}\")", "^\"\\u{DC00}\"", "'a'..'\\u{D800}'", "#t = a", "#_ = (b)", "{2,}", "{,2}"]).chars().collect(); for (k, ch) in piece.into_iter().enumerate() { c.insert(j + k, ch); } }
-            6 => { let j = i.min(c.len()); let piece: Vec<char> = rng.pick(&["PUSH(", "PEEK[", "..", "//", "/*", "*/", "///", "//!", "\\u{", "\\x", "^\"", "WHITESPACE = { \"\" }", "COMMENT = _{ !ANY }", "a = { a }", "b = { b? ~ \"x\" }", "c = { (\"a\"*)* }", "d = { \"\" | \"x\" }", "e = @{ e+ }", "ANY = { \"a\" }", "f = { g }"]).chars().collect(); for (k, ch) in piece.into_iter().enumerate() { c.insert(j + k, ch); } }
+            6 => { let j = i.min(c.len()); let piece: Vec<char> = rng.pick(&["PUSH(", "PEEK[", "..", "//", "/*", "*/", "///", "//!", "\\u{", "\\x", "^\"", "WHITESPACE = { \"\" }", "COMMENT = _{ !ANY }", "a = { a }", "b = { b? ~ \"x\" }", "c = { (\"a\"*)* }", "d = { \"\" | \"x\" }", "e = @{ e+ }", "ANY = { \"a\" }", "f = { g }", "( | ", "PUSH( | ", "(| (| ", "^ ", "| "]).chars().collect(); for (k, ch) in piece.into_iter().enumerate() { c.insert(j + k, ch); } }
             _ => { let d = rng.range(1, 40); let j = i.min(c.len()); for k in 0..d { c.insert(j + k, '('); } }
         }
     }
@@ -99,8 +99,12 @@ fn main() {
             let mut rng = Rng::new(seed ^ 0xC09);
             let mut seeds: Vec<String> = vec![];
             for f in ["/repo/meta/src/grammar.pest", "/repo/grammars/src/grammars/json.pest", "/repo/grammars/src/grammars/toml.pest", "/repo/grammars/src/grammars/http.pest", "/repo/grammars/src/grammars/sql.pest", "/repo/derive/tests/grammar.pest", "/repo/derive/tests/reporting.pest", "/repo/derive/tests/lists.pest", "/repo/derive/tests/implicit.pest", "/repo/derive/tests/opt.pest", "/repo/derive/tests/oneormore.pest", "/repo/derive/tests/surround.pest"] { if let Ok(t) = std::fs::read_to_string(f) { if t.len() > 3000 { for part in t.split("\n\n") { if part.trim().len() > 10 { seeds.push(part.trim().to_string()); } } } seeds.push(t); } }
+            // long chains of rules that refer twice to the next one: the validator must not search them exponentially
+            seeds.push((0..40).map(|i| format!("c{} = {{ c{}? ~ c{}? }}\n", i, i + 1, i + 1)).collect::<String>() + "c40 = { \"x\" }\n");
+            seeds.push((0..14).map(|i| format!("d{} = {{ d{} | d{} }}\n", i, i + 1, i + 1)).collect::<String>() + "d14 = { \"x\" }\n");
+            seeds.push("a = { ( | \"b\" | c) ~ PUSH( | \"d\") ~ ^ \"e\" ~ (| (| \"f\")) }\nc = { \"c\" }\n".to_string());
             let n = if thorough { 200000 } else { 12000 };
-            let mut texts: Vec<String> = vec!["".into(), " ".into(), "a".into(), "a = ".into(), "a = {".into(), "a = { }".into(), "a = { \"".into(), "\u{feff}a = { \"b\" }".into(), "a = { 'a'..'b' }".into(), "//!".into(), "///".into(), "/*".into()];
+            let mut texts: Vec<String> = vec![seeds[seeds.len() - 1].clone(), seeds[seeds.len() - 2].clone(), seeds[seeds.len() - 3].clone(), "".into(), " ".into(), "a".into(), "a = ".into(), "a = {".into(), "a = { }".into(), "a = { \"".into(), "\u{feff}a = { \"b\" }".into(), "a = { 'a'..'b' }".into(), "//!".into(), "///".into(), "/*".into()];
             while texts.len() < n { let base = rng.pick(&seeds).clone(); let base = if base.len() > 1500 && rng.chance(3, 4) { let cs: Vec<char> = base.chars().collect(); let st = rng.below(cs.len() as u64) as usize; cs[st..(st + 400).min(cs.len())].iter().collect() } else { base }; texts.push(mutate(&mut rng, &base)); }
             for chunk in texts.chunks(1000) {
                 let res = run_batch(chunk, &dir, Duration::from_secs(30));
